@@ -1,6 +1,1092 @@
-//! C06 — not implemented yet.
+//! C06 — Privileged functions obey the role / admin / owner hierarchy.
+//!
+//! Targets: harness `Acl` (AccessControl trait defaults + one probe per attribute macro),
+//! example `nft-access-control` (all five macro kinds) and example `ownable` (`#[only_owner]`).
+//! Oracle: reference model {admin, pending admin, members per role, role_admin} written from
+//! the statement and the module documentation.  Every call is made with an explicit set of
+//! authorization entries; "X authorizes the call" == "an entry of X for exactly this invocation
+//! is attached".  After every step the complete enumeration state is compared with the model.
+
+use super::ftcore::{auth_strategy, AuthMode};
 use crate::engine::*;
+use crate::envx::{self, call, call_t, Inv};
+use crate::gen::pick;
+use proptest::prelude::*;
+use serde::{Deserialize, Serialize};
+use serde_json::json;
+use soroban_sdk::{symbol_short, Address, Env, IntoVal, String as SString, Symbol, TryFromVal, Val, Vec as SVec};
+use std::cell::Cell;
+use std::collections::{BTreeMap, BTreeSet};
+use std::panic::{catch_unwind, AssertUnwindSafe};
+use stellar_access::access_control as ac;
+
+pub const NR: usize = 4;
+/// named accounts; index NA is an extra outsider that is never a grant target
+pub const NA: usize = 5;
+
+// ------------------------------------------------------------------ explicit-authorization calls
+
+/// A fully resolved call and the addresses that attach an entry for exactly this invocation.
+#[derive(Clone, Debug)]
+pub struct Call {
+    pub func: &'static str,
+    pub args: Vec<Val>,
+    pub signers: Vec<Address>,
+}
+
+fn svec(e: &Env, args: &[Val]) -> SVec<Val> {
+    let mut v = SVec::new(e);
+    for a in args {
+        v.push_back(*a);
+    }
+    v
+}
+
+/// change one argument of a signed invocation (Tamper); false if nothing could be changed
+fn tamper_arg(e: &Env, v: &mut Val, pool: &[Address]) -> bool {
+    if let Ok(a) = Address::try_from_val(e, v) {
+        if let Some(o) = pool.iter().find(|p| **p != a) {
+            *v = o.clone().into_val(e);
+            return true;
+        }
+        return false;
+    }
+    if let Ok(x) = u32::try_from_val(e, v) {
+        *v = x.wrapping_add(1).into_val(e);
+        return true;
+    }
+    if let Ok(s) = Symbol::try_from_val(e, v) {
+        let z = Symbol::new(e, "zz");
+        *v = if s == z { Symbol::new(e, "zy").into_val(e) } else { z.into_val(e) };
+        return true;
+    }
+    false
+}
+
+/// Attach entries according to `mode`, invoke, detach.  Returns the result and the list of
+/// addresses whose entry for EXACTLY this invocation was attached.
+pub fn exec(e: &Env, c: &Address, cl: &Call, mode: &AuthMode, pool: &[Address]) -> (Result<Val, String>, Vec<Address>) {
+    let inv = Inv { contract: c.clone(), func: cl.func.to_string(), args: cl.args.clone(), subs: vec![] };
+    let mut entries: Vec<(Address, Inv, bool)> = cl.signers.iter().map(|a| (a.clone(), inv.clone(), true)).collect();
+    let n = entries.len();
+    match mode {
+        AuthMode::Exact => {}
+        AuthMode::Drop(i) => {
+            if n > 0 {
+                entries.remove(*i as usize % n);
+            }
+        }
+        AuthMode::Swap(i, o) => {
+            if n > 0 {
+                let cand: Vec<&Address> = pool.iter().filter(|p| !cl.signers.contains(p)).collect();
+                if !cand.is_empty() {
+                    entries[*i as usize % n].0 = cand[pick(*o, cand.len())].clone();
+                }
+            }
+        }
+        AuthMode::Tamper(i, k) => {
+            if n > 0 {
+                let en = &mut entries[*i as usize % n];
+                let mut changed = false;
+                if !en.1.args.is_empty() {
+                    let j = *k as usize % en.1.args.len();
+                    changed = tamper_arg(e, &mut en.1.args[j], pool);
+                }
+                if !changed {
+                    en.1.func = "tampered".to_string();
+                }
+                en.2 = false;
+            }
+        }
+        AuthMode::Surplus(o) => {
+            let who = pool[pick(*o, pool.len())].clone();
+            if !cl.signers.contains(&who) {
+                let junk = Inv { contract: c.clone(), func: "junk".into(), args: vec![who.clone().into_val(e)], subs: vec![] };
+                entries.push((who, junk, false));
+            }
+        }
+    }
+    let refs: Vec<(&Address, &Inv)> = entries.iter().map(|(a, i, _)| (a, i)).collect();
+    envx::set_auth(e, &refs);
+    let r = call(e, c, cl.func, svec(e, &cl.args));
+    envx::no_auth(e);
+    let attached = entries.iter().filter(|x| x.2).map(|x| x.0.clone()).collect();
+    (r, attached)
+}
+
+// ------------------------------------------------------------------ case
+
+#[derive(Clone, Copy, Debug, Serialize, Deserialize, PartialEq, Eq)]
+pub enum Target {
+    Acl,
+    Nft,
+    Ownable,
+}
+
+/// Caller / signer selector, resolved against the model when the op executes.
+#[derive(Clone, Debug, Serialize, Deserialize)]
+pub enum Who {
+    /// the current admin / owner (the last one after a renounce)
+    Admin,
+    /// a holder of the admin role `depth` levels up the role-admin chain of the op's role (0 = direct)
+    RoleAdmin(u8, u16),
+    /// a member of the op's role
+    Member(u16),
+    /// an account with no standing at all
+    Stranger,
+    Acct(u16),
+    /// the pending admin / owner (the last offeree when none)
+    Pending,
+}
+
+#[derive(Clone, Debug, Serialize, Deserialize)]
+pub enum LiveSel {
+    /// current ledger + d
+    Rel(i32),
+    /// live_until_ledger = 0 (cancel); `same` = name the pending account
+    Cancel(bool),
+}
+
+#[derive(Clone, Debug, Serialize, Deserialize)]
+pub enum Op {
+    /// `also`: a second account that attaches an entry for exactly this invocation
+    Grant { role: u8, account: u16, caller: Who, also: Option<Who>, auth: AuthMode },
+    Revoke { role: u8, account: Who, caller: Who, also: Option<Who>, auth: AuthMode },
+    Renounce { role: u8, caller: Who, auth: AuthMode },
+    SetRoleAdmin { role: u8, admin_role: u8, by: Who, auth: AuthMode },
+    TransferAdmin { to: u16, live: LiveSel, by: Who, auth: AuthMode },
+    AcceptAdmin { by: Who, auth: AuthMode },
+    RenounceAdmin { by: Who, auth: AuthMode },
+    /// guarded entry point `kind` (per target), `role` only steers the caller selector
+    Probe { kind: u8, role: u8, caller: Who, also: Option<Who>, other: u16, auth: AuthMode },
+    Advance { k: u32 },
+}
+
+#[derive(Clone, Debug, Serialize, Deserialize)]
+pub struct Case {
+    pub target: Target,
+    pub seq: u32,
+    pub small_ttl: bool,
+    /// initial role-admin wiring (set-up by the admin through set_role_admin)
+    pub role_admin0: Vec<Option<u8>>,
+    /// initial members per role, bitmask over the named accounts (set-up through grant_role)
+    pub members0: Vec<u8>,
+    pub ops: Vec<Op>,
+}
+
+fn who_strategy() -> BoxedStrategy<Who> {
+    prop_oneof![
+        5 => Just(Who::Admin),
+        8 => (prop_oneof![5 => Just(0u8), 2 => Just(1u8), 1 => Just(2u8)], any::<u16>()).prop_map(|(d, s)| Who::RoleAdmin(d, s)),
+        2 => any::<u16>().prop_map(Who::Member),
+        2 => Just(Who::Stranger),
+        2 => any::<u16>().prop_map(Who::Acct),
+        1 => Just(Who::Pending),
+    ]
+    .boxed()
+}
+fn holder_who_strategy() -> BoxedStrategy<Who> {
+    prop_oneof![
+        8 => Just(Who::Admin),
+        1 => Just(Who::Stranger),
+        2 => any::<u16>().prop_map(Who::Acct),
+        1 => Just(Who::Pending),
+    ]
+    .boxed()
+}
+fn accept_who_strategy() -> BoxedStrategy<Who> {
+    prop_oneof![
+        8 => Just(Who::Pending),
+        1 => Just(Who::Admin),
+        2 => any::<u16>().prop_map(Who::Acct),
+    ]
+    .boxed()
+}
+/// an additional exact signer (mostly none; when present mostly the admin: "the admin signs, somebody else is named as caller")
+fn also_strategy() -> BoxedStrategy<Option<Who>> {
+    proptest::option::weighted(0.12, prop_oneof![3 => Just(Who::Admin), 1 => any::<u16>().prop_map(Who::Member), 1 => any::<u16>().prop_map(Who::Acct)]).boxed()
+}
+
+fn live_strategy() -> BoxedStrategy<LiveSel> {
+    prop_oneof![
+        8 => prop_oneof![Just(0i32), Just(1), 2i32..40, Just(-1)].prop_map(LiveSel::Rel),
+        2 => any::<bool>().prop_map(LiveSel::Cancel),
+    ]
+    .boxed()
+}
+
+fn admin_ops(w: u32) -> BoxedStrategy<Op> {
+    let a = auth_strategy(6);
+    prop_oneof![
+        2 * w => (any::<u16>(), live_strategy(), holder_who_strategy(), a.clone()).prop_map(|(to, live, by, auth)| Op::TransferAdmin { to, live, by, auth }),
+        2 * w => (accept_who_strategy(), a.clone()).prop_map(|(by, auth)| Op::AcceptAdmin { by, auth }),
+        w => (holder_who_strategy(), a.clone()).prop_map(|(by, auth)| Op::RenounceAdmin { by, auth }),
+        1 => prop_oneof![Just(0u32), Just(1), 2u32..30].prop_map(|k| Op::Advance { k }),
+    ]
+    .boxed()
+}
+
+fn op_strategy(target: Target) -> BoxedStrategy<Op> {
+    let a = auth_strategy(6);
+    let role = 0u8..NR as u8;
+    if target == Target::Ownable {
+        return prop_oneof![
+            4 => admin_ops(2),
+            5 => (0u8..1, holder_who_strategy(), also_strategy(), any::<u16>(), a.clone())
+                .prop_map(|(kind, caller, also, other, auth)| Op::Probe { kind, role: 0, caller, also, other, auth }),
+        ]
+        .boxed();
+    }
+    let member_sel = prop_oneof![5 => any::<u16>().prop_map(Who::Member), 2 => any::<u16>().prop_map(Who::Acct)];
+    prop_oneof![
+        9 => (role.clone(), any::<u16>(), who_strategy(), also_strategy(), a.clone())
+            .prop_map(|(role, account, caller, also, auth)| Op::Grant { role, account, caller, also, auth }),
+        7 => (role.clone(), member_sel, who_strategy(), also_strategy(), a.clone())
+            .prop_map(|(role, account, caller, also, auth)| Op::Revoke { role, account, caller, also, auth }),
+        3 => (role.clone(), prop_oneof![4 => any::<u16>().prop_map(Who::Member), 1 => any::<u16>().prop_map(Who::Acct)], a.clone())
+            .prop_map(|(role, caller, auth)| Op::Renounce { role, caller, auth }),
+        3 => (role.clone(), role.clone(), holder_who_strategy(), a.clone())
+            .prop_map(|(role, admin_role, by, auth)| Op::SetRoleAdmin { role, admin_role, by, auth }),
+        6 => admin_ops(1),
+        9 => (0u8..6, role.clone(), prop_oneof![3 => any::<u16>().prop_map(Who::Member), 2 => who_strategy()], also_strategy(), any::<u16>(), a.clone())
+            .prop_map(|(kind, role, caller, also, other, auth)| Op::Probe { kind, role, caller, also, other, auth }),
+    ]
+    .boxed()
+}
+
+fn strategy_for(target: Target, tier: Tier) -> BoxedStrategy<Case> {
+    let max_ops = tier.pick(40usize, 80usize);
+    let ra = proptest::collection::vec(proptest::option::weighted(0.6, 0u8..NR as u8), NR);
+    let mem = proptest::collection::vec(prop_oneof![1 => Just(0u8), 3 => 0u8..(1 << NA)], NR);
+    (100u32..5000, proptest::bool::weighted(0.15), ra, mem, proptest::collection::vec(op_strategy(target), 0..=max_ops))
+        .prop_map(move |(seq, small_ttl, role_admin0, members0, ops)| {
+            if target == Target::Ownable {
+                Case { target, seq, small_ttl, role_admin0: vec![], members0: vec![], ops }
+            } else {
+                Case { target, seq, small_ttl, role_admin0, members0, ops }
+            }
+        })
+        .boxed()
+}
+
+// ------------------------------------------------------------------ world, model, dump
+
+const ACL_ROLES: [&str; NR] = ["r0", "r1", "r2", "r3"];
+const NFT_ROLES: [&str; NR] = ["other", "minter", "burner", "madmin"];
+
+pub struct World {
+    pub e: Env,
+    pub c: Address,
+    pub target: Target,
+    /// NA named accounts + the outsider
+    pub accts: Vec<Address>,
+    pub roles: Vec<Symbol>,
+    pub role_names: Vec<&'static str>,
+    /// frame owner for entry-point reads (a plain contract address without any standing)
+    pub reader: Address,
+}
+
+impl World {
+    pub fn setup(target: Target, seq: u32, max_ttl: u32) -> World {
+        let e = envx::new_env(seq, max_ttl);
+        let accts = envx::actors(&e, NA + 1);
+        let admin = accts[0].clone();
+        let s = |x: &str| SString::from_str(&e, x);
+        let (c, names): (Address, Vec<&'static str>) = match target {
+            Target::Acl => (e.register(crate::contracts::c06::acl::Acl, (admin,)), ACL_ROLES.to_vec()),
+            Target::Nft => (
+                e.register(crate::examples::nft_access_control::contract::ExampleContract, (s("uri"), s("N"), s("N"), admin)),
+                NFT_ROLES.to_vec(),
+            ),
+            Target::Ownable => (e.register(crate::examples::ownable::contract::ExampleContract, (admin,)), vec![]),
+        };
+        let roles = names.iter().map(|n| Symbol::new(&e, n)).collect();
+        envx::no_auth(&e);
+        let reader = envx::actor(&e);
+        World { e, c, target, accts, roles, role_names: names, reader }
+    }
+    fn fname(&self, generic: &'static str) -> &'static str {
+        if self.target != Target::Ownable {
+            return generic;
+        }
+        match generic {
+            "transfer_admin_role" => "transfer_ownership",
+            "accept_admin_transfer" => "accept_ownership",
+            "renounce_admin" => "renounce_ownership",
+            "get_admin" => "get_owner",
+            x => x,
+        }
+    }
+    fn idx(&self, a: &Address) -> Option<usize> {
+        self.accts.iter().position(|x| x == a)
+    }
+}
+
+#[derive(Clone, Debug, Default)]
+struct Model {
+    admin: Option<usize>,
+    last_admin: usize,
+    pending: Option<usize>,
+    last_offeree: usize,
+    renounced: bool,
+    members: Vec<BTreeSet<usize>>,
+    role_admin: Vec<Option<usize>>,
+    /// NFT: token id -> owner
+    tokens: BTreeMap<u32, usize>,
+    next_token: u32,
+    /// successful probes (Acl counter / ownable counter)
+    counter: u32,
+}
+
+#[derive(Clone, Debug, PartialEq, Eq)]
+struct Dump {
+    admin: Option<Address>,
+    /// has[role][acct]
+    has: Vec<Vec<Option<u32>>>,
+    count: Vec<u32>,
+    /// members[role][i], i < count
+    members: Vec<Vec<Address>>,
+    role_admin: Vec<Option<Symbol>>,
+    existing: Vec<Symbol>,
+    counter: u32,
+    /// NFT balances per account
+    balances: Vec<u32>,
+}
+
+/// Bulk read with the library's own getters inside one contract frame (the trait defaults of all
+/// three targets forward to exactly these functions).  A getter that panics (a member slot below
+/// `count` that does not exist) is turned into a violation.
+fn dump(w: &World) -> Result<Dump, Violation> {
+    let e = &w.e;
+    let at: Cell<(usize, u32)> = Cell::new((usize::MAX, 0));
+    let r = catch_unwind(AssertUnwindSafe(|| {
+        e.as_contract(&w.c, || {
+            if w.target == Target::Ownable {
+                use crate::examples::ownable::contract::DataKey;
+                let counter: i32 = e.storage().instance().get(&DataKey::Counter).unwrap_or(-1);
+                return Dump {
+                    admin: stellar_access::ownable::get_owner(e),
+                    has: vec![],
+                    count: vec![],
+                    members: vec![],
+                    role_admin: vec![],
+                    existing: vec![],
+                    counter: counter as u32,
+                    balances: vec![],
+                };
+            }
+            let admin = ac::get_admin(e);
+            let has: Vec<Vec<Option<u32>>> = w.roles.iter().map(|r| w.accts.iter().map(|a| ac::has_role(e, a, r)).collect()).collect();
+            let count: Vec<u32> = w.roles.iter().map(|r| ac::get_role_member_count(e, r)).collect();
+            let mut members = vec![];
+            for (ri, r) in w.roles.iter().enumerate() {
+                let mut v = vec![];
+                for i in 0..count[ri].min(64) {
+                    at.set((ri, i));
+                    v.push(ac::get_role_member(e, r, i));
+                }
+                members.push(v);
+            }
+            at.set((usize::MAX, 0));
+            let role_admin = w.roles.iter().map(|r| ac::get_role_admin(e, r)).collect();
+            let existing: Vec<Symbol> = ac::get_existing_roles(e).iter().collect();
+            let (counter, balances) = match w.target {
+                Target::Acl => (e.storage().instance().get(&symbol_short!("CNT")).unwrap_or(0u32), vec![]),
+                _ => (0, w.accts.iter().map(|a| stellar_tokens::non_fungible::Base::balance(e, a)).collect()),
+            };
+            Dump { admin, has, count, members, role_admin, existing, counter, balances }
+        })
+    }));
+    match r {
+        Ok(d) => Ok(d),
+        Err(_) => {
+            let (ri, i) = at.get();
+            if ri == usize::MAX {
+                Err(violation("C06/dump/getter-panicked", "a getter that cannot fail panicked during the bulk read"))
+            } else {
+                Err(violation(
+                    "C06/enumeration/member-slot-missing",
+                    format!("get_role_member({}, {i}) fails although get_role_member_count reports more members", w.role_names[ri]),
+                ))
+            }
+        }
+    }
+}
+
+/// Full comparison of the observed state with the model (DESIGN §4 C06 oracle, second half).
+fn check_state(w: &World, m: &Model, d: &Dump, step: &str) -> R {
+    let want_admin = m.admin.map(|i| w.accts[i].clone());
+    ensure!(d.admin == want_admin, "C06/get_admin/mismatch", "after {step}: holder is {:?}, model says {:?}", d.admin, want_admin);
+    if w.target == Target::Ownable {
+        ensure!(d.counter == m.counter, "C06/probe/counter-mismatch", "after {step}: counter {} vs model {}", d.counter, m.counter);
+        return Ok(());
+    }
+    for r in 0..NR {
+        let name = w.role_names[r];
+        let set = &m.members[r];
+        ensure!(
+            d.count[r] as usize == set.len(),
+            "C06/enumeration/count-mismatch",
+            "after {step}: get_role_member_count({name}) = {} but {} accounts hold the role",
+            d.count[r],
+            set.len()
+        );
+        let mut seen = BTreeSet::new();
+        for (i, a) in d.members[r].iter().enumerate() {
+            let Some(ai) = w.idx(a) else { bail!("C06/enumeration/unknown-member", "after {step}: get_role_member({name},{i}) is an unknown address") };
+            ensure!(seen.insert(ai), "C06/enumeration/duplicate-member", "after {step}: account {ai} enumerated twice in role {name}");
+            ensure!(set.contains(&ai), "C06/enumeration/non-member-enumerated", "after {step}: get_role_member({name},{i}) = account {ai} which does not hold the role");
+        }
+        ensure!(seen == *set, "C06/enumeration/member-not-enumerated", "after {step}: role {name} enumerates {:?}, model {:?}", seen, set);
+        for a in 0..w.accts.len() {
+            match d.has[r][a] {
+                Some(i) => {
+                    ensure!(set.contains(&a), "C06/has_role/non-member", "after {step}: has_role(account {a}, {name}) = Some({i}) but the role was not granted / was revoked");
+                    ensure!(
+                        (i as usize) < d.members[r].len() && d.members[r][i as usize] == w.accts[a],
+                        "C06/enumeration/index-mismatch",
+                        "after {step}: has_role(account {a}, {name}) = Some({i}) but get_role_member({name},{i}) = {:?} (count {})",
+                        d.members[r].get(i as usize).and_then(|x| w.idx(x)),
+                        d.count[r]
+                    );
+                }
+                None => {
+                    ensure!(!set.contains(&a), "C06/has_role/member-missing", "after {step}: has_role(account {a}, {name}) = None but the account holds the role");
+                }
+            }
+        }
+        let want_ra = m.role_admin[r].map(|x| w.roles[x].clone());
+        ensure!(d.role_admin[r] == want_ra, "C06/get_role_admin/mismatch", "after {step}: role admin of {name} is {:?}, model {:?}", d.role_admin[r], m.role_admin[r]);
+    }
+    // existing roles: as a set, no duplicates, == roles with >= 1 member
+    let mut ex = BTreeSet::new();
+    for s in &d.existing {
+        let Some(ri) = w.roles.iter().position(|r| r == s) else { bail!("C06/existing_roles/unknown-role", "after {step}: unknown role listed") };
+        ensure!(ex.insert(ri), "C06/existing_roles/duplicate", "after {step}: role {} listed twice", w.role_names[ri]);
+    }
+    let want: BTreeSet<usize> = (0..NR).filter(|r| !m.members[*r].is_empty()).collect();
+    ensure!(ex == want, "C06/existing_roles/mismatch", "after {step}: get_existing_roles = {:?}, roles with members = {:?}", ex, want);
+    if w.target == Target::Acl {
+        ensure!(d.counter == m.counter, "C06/probe/counter-mismatch", "after {step}: counter {} vs model {}", d.counter, m.counter);
+    } else {
+        for a in 0..w.accts.len() {
+            let want = m.tokens.values().filter(|o| **o == a).count() as u32;
+            ensure!(d.balances[a] == want, "C06/probe/nft-balance-mismatch", "after {step}: balance(account {a}) = {} vs model {want}", d.balances[a]);
+        }
+    }
+    Ok(())
+}
+
+/// Public entry point invoked as a sub-call of the current (reader) frame.
+fn sub_call<T: TryFromVal<Env, Val>>(e: &Env, c: &Address, f: &str, args: SVec<Val>) -> Result<T, String> {
+    match e.try_invoke_contract::<T, soroban_sdk::Error>(c, &Symbol::new(e, f), args) {
+        Ok(Ok(v)) => Ok(v),
+        Ok(Err(_)) => Err(format!("{f}: unexpected return type")),
+        Err(Ok(err)) => Err(format!("{err:?}")),
+        Err(Err(ie)) => Err(format!("{ie:?}")),
+    }
+}
+
+/// The same facts through the public entry points (cross-check of the bulk read).  All reads of one
+/// step are sub-invocations of a single frame of the outsider account (one top-level frame per
+/// step instead of dozens: the cost of a top-level invocation grows with the history of an Env).
+fn check_api(w: &World, d: &Dump, roles: &[usize], accts: &[usize], full: bool) -> R {
+    w.e.as_contract(&w.reader, || check_api_inner(w, d, roles, accts, full))
+}
+
+fn check_api_inner(w: &World, d: &Dump, roles: &[usize], accts: &[usize], full: bool) -> R {
+    let e = &w.e;
+    let adm = sub_call::<Option<Address>>(e, &w.c, w.fname("get_admin"), args![e]).map_err(|x| violation("C06/api/get_admin-failed", x))?;
+    ensure!(adm == d.admin, "C06/api/get_admin-mismatch", "entry point {:?} vs bulk read {:?}", adm, d.admin);
+    if w.target == Target::Ownable {
+        return Ok(());
+    }
+    // one past the end must fail, for every role after every step
+    for r in 0..w.roles.len() {
+        let oob = sub_call::<Address>(e, &w.c, "get_role_member", args![e; w.roles[r].clone(), d.count[r]]);
+        ensure!(oob.is_err(), "C06/enumeration/oob-succeeded", "get_role_member({}, count = {}) succeeded", w.role_names[r], d.count[r]);
+    }
+    for &r in roles {
+        let role = w.roles[r].clone();
+        let cnt = sub_call::<u32>(e, &w.c, "get_role_member_count", args![e; role.clone()]).map_err(|x| violation("C06/api/count-failed", x))?;
+        ensure!(cnt == d.count[r], "C06/api/count-mismatch", "entry point {} vs bulk read {}", cnt, d.count[r]);
+        for &a in accts {
+            let h = sub_call::<Option<u32>>(e, &w.c, "has_role", args![e; w.accts[a].clone(), role.clone()]).map_err(|x| violation("C06/api/has_role-failed", x))?;
+            ensure!(h == d.has[r][a], "C06/api/has_role-mismatch", "entry point {:?} vs bulk read {:?}", h, d.has[r][a]);
+        }
+        if full {
+            for i in 0..d.count[r] {
+                let mm = sub_call::<Address>(e, &w.c, "get_role_member", args![e; role.clone(), i]).map_err(|x| violation("C06/api/get_role_member-failed", x))?;
+                ensure!(mm == d.members[r][i as usize], "C06/api/get_role_member-mismatch", "role {} index {i}", w.role_names[r]);
+            }
+            let ra = sub_call::<Option<Symbol>>(e, &w.c, "get_role_admin", args![e; role.clone()]).map_err(|x| violation("C06/api/get_role_admin-failed", x))?;
+            ensure!(ra == d.role_admin[r], "C06/api/get_role_admin-mismatch", "role {}", w.role_names[r]);
+        }
+    }
+    if full {
+        let ex = sub_call::<SVec<Symbol>>(e, &w.c, "get_existing_roles", args![e]).map_err(|x| violation("C06/api/get_existing_roles-failed", x))?;
+        let ex: Vec<Symbol> = ex.iter().collect();
+        ensure!(ex == d.existing, "C06/api/get_existing_roles-mismatch", "entry point and bulk read differ");
+    }
+    Ok(())
+}
+
+/// a selector that `pick` maps onto index `i` of `n`
+fn sel_for(i: usize, n: usize) -> u16 {
+    (((i as u32) << 16) / n as u32 + 1).min(u16::MAX as u32) as u16
+}
+
+fn has_standing(m: &Model, a: usize) -> bool {
+    m.admin == Some(a) || m.pending == Some(a) || m.members.iter().any(|s| s.contains(&a))
+}
+
+fn resolve(m: &Model, who: &Who, role: Option<usize>) -> usize {
+    let all = NA + 1;
+    let nth = |set: &BTreeSet<usize>, sel: u16| -> Option<usize> { set.iter().nth(pick(sel, set.len())).copied().filter(|_| !set.is_empty()) };
+    match who {
+        Who::Admin => m.admin.unwrap_or(m.last_admin),
+        Who::Pending => m.pending.unwrap_or(m.last_offeree),
+        Who::Acct(s) => pick(*s, all),
+        Who::Stranger => (0..all).rev().find(|a| !has_standing(m, *a)).unwrap_or(NA),
+        Who::Member(s) => role.and_then(|r| nth(&m.members[r], *s)).unwrap_or_else(|| pick(*s, all)),
+        Who::RoleAdmin(depth, s) => {
+            let mut r = role;
+            for _ in 0..=*depth {
+                r = r.and_then(|x| m.role_admin.get(x).copied().flatten());
+            }
+            // prefer a holder who is not the admin itself
+            r.and_then(|r| {
+                let mut set = m.members[r].clone();
+                if let Some(a) = m.admin {
+                    if set.len() > 1 {
+                        set.remove(&a);
+                    }
+                }
+                nth(&set, *s)
+            })
+            .unwrap_or_else(|| pick(*s, all))
+        }
+    }
+}
+
+/// what a guarded probe requires
+struct Guard {
+    func: &'static str,
+    /// None = admin/owner-only; Some(roles) = caller must hold any of them
+    roles: Option<Vec<usize>>,
+    /// the guard (macro or documented body) demands the principal's authorization
+    needs_auth: bool,
+}
+
+fn guard(target: Target, kind: u8) -> Guard {
+    match target {
+        Target::Acl => match kind {
+            0 => Guard { func: "p_admin", roles: None, needs_auth: true },
+            1 => Guard { func: "p_only_r1", roles: Some(vec![1]), needs_auth: true },
+            2 => Guard { func: "p_has_r2", roles: Some(vec![2]), needs_auth: false },
+            3 => Guard { func: "p_has_r2_auth", roles: Some(vec![2]), needs_auth: true },
+            4 => Guard { func: "p_only_any", roles: Some(vec![1, 3]), needs_auth: true },
+            _ => Guard { func: "p_has_any", roles: Some(vec![0, 2]), needs_auth: false },
+        },
+        Target::Nft => match kind {
+            0 => Guard { func: "admin_restricted_function", roles: None, needs_auth: true },
+            1 => Guard { func: "mint", roles: Some(vec![1]), needs_auth: true },
+            2 => Guard { func: "burn", roles: Some(vec![2]), needs_auth: true },
+            3 => Guard { func: "burn_from", roles: Some(vec![2]), needs_auth: true },
+            4 => Guard { func: "multi_role_action", roles: Some(vec![1, 2]), needs_auth: true },
+            _ => Guard { func: "multi_role_auth_action", roles: Some(vec![1, 2]), needs_auth: true },
+        },
+        Target::Ownable => Guard { func: "increment", roles: None, needs_auth: true },
+    }
+}
+
+/// outcome the model predicts for a call
+struct Pred {
+    /// the statement allows success (safety direction)
+    may: bool,
+    /// documentation fixes the outcome: Some(must_succeed)
+    must: Option<bool>,
+}
+
+pub fn run(case: &Case, ctx: &mut Ctx) -> R {
+    let max_ttl = if case.small_ttl { 700 } else { envx::BIG_TTL };
+    let w = World::setup(case.target, case.seq, max_ttl);
+    let e = &w.e;
+    let nr = if case.target == Target::Ownable { 0 } else { NR };
+    let mut m = Model { admin: Some(0), members: vec![BTreeSet::new(); nr], role_admin: vec![None; nr], ..Default::default() };
+    let mut d = dump(&w)?;
+    if case.target == Target::Ownable {
+        m.counter = 0;
+    }
+    check_state(&w, &m, &d, "construction")?;
+
+    // set-up ops are ordinary ops (admin, exact authorization) checked by the same oracle
+    let mut ops: Vec<Op> = vec![];
+    if nr > 0 {
+        for (r, ra) in case.role_admin0.iter().enumerate().take(NR) {
+            if let Some(ar) = ra {
+                ops.push(Op::SetRoleAdmin { role: r as u8, admin_role: *ar, by: Who::Admin, auth: AuthMode::Exact });
+            }
+        }
+        for (r, mask) in case.members0.iter().enumerate().take(NR) {
+            for a in 0..NA {
+                if (mask >> a) & 1 == 1 {
+                    let sel = sel_for(a, NA);
+                    ops.push(Op::Grant { role: r as u8, account: sel, caller: Who::Admin, also: None, auth: AuthMode::Exact });
+                }
+            }
+        }
+    }
+    let n_setup = ops.len();
+    ops.extend(case.ops.iter().cloned());
+
+    let mut swap_pop = false;
+    let mut role_admin_grant = false;
+    let mut rejected_privileged = false;
+
+    for (step, op) in ops.iter().enumerate() {
+        let in_setup = step < n_setup;
+        if let Op::Advance { k } = op {
+            envx::advance(e, *k);
+            d = dump(&w)?;
+            check_state(&w, &m, &d, "advance")?;
+            continue;
+        }
+        let ridx = |r: &u8| (*r as usize).min(NR - 1);
+        let addr = |i: usize| w.accts[i].clone();
+        // resolve the op into a call, a prediction and a model effect
+        enum Effect {
+            Grant(usize, usize),
+            Remove(usize, usize),
+            SetRoleAdmin(usize, usize),
+            Offer(Option<usize>),
+            Accept,
+            RenounceAdmin,
+            Probe(Option<(u32, Option<usize>)>),
+        }
+        let mut touched_role: Option<usize> = None;
+        let mut touched_acct: Option<usize> = None;
+        // closure deciding authorization from the attached entries is applied after exec; so first build the call
+        let (cl, mode, kind_name): (Call, &AuthMode, &'static str) = match op {
+            Op::Advance { .. } => unreachable!(),
+            Op::Grant { role, account, caller, auth, .. } => {
+                if nr == 0 {
+                    continue;
+                }
+                let r = ridx(role);
+                let a = pick(*account, NA);
+                let c = resolve(&m, caller, Some(r));
+                touched_role = Some(r);
+                touched_acct = Some(a);
+                (Call { func: "grant_role", args: vec![addr(a).into_val(e), w.roles[r].clone().into_val(e), addr(c).into_val(e)], signers: vec![addr(c)] }, auth, "grant_role")
+            }
+            Op::Revoke { role, account, caller, auth, .. } => {
+                if nr == 0 {
+                    continue;
+                }
+                let r = ridx(role);
+                let a = resolve(&m, account, Some(r));
+                let c = resolve(&m, caller, Some(r));
+                touched_role = Some(r);
+                touched_acct = Some(a);
+                (Call { func: "revoke_role", args: vec![addr(a).into_val(e), w.roles[r].clone().into_val(e), addr(c).into_val(e)], signers: vec![addr(c)] }, auth, "revoke_role")
+            }
+            Op::Renounce { role, caller, auth } => {
+                if nr == 0 {
+                    continue;
+                }
+                let r = ridx(role);
+                let c = resolve(&m, caller, Some(r));
+                touched_role = Some(r);
+                touched_acct = Some(c);
+                (Call { func: "renounce_role", args: vec![w.roles[r].clone().into_val(e), addr(c).into_val(e)], signers: vec![addr(c)] }, auth, "renounce_role")
+            }
+            Op::SetRoleAdmin { role, admin_role, by, auth } => {
+                if nr == 0 {
+                    continue;
+                }
+                let r = ridx(role);
+                let ar = ridx(admin_role);
+                let s = resolve(&m, by, Some(r));
+                touched_role = Some(r);
+                (Call { func: "set_role_admin", args: vec![w.roles[r].clone().into_val(e), w.roles[ar].clone().into_val(e)], signers: vec![addr(s)] }, auth, "set_role_admin")
+            }
+            Op::TransferAdmin { to, live, by, auth } => {
+                let s = resolve(&m, by, None);
+                let (to_i, until) = match live {
+                    LiveSel::Rel(dl) => (pick(*to, NA + 1), (envx::seq(e) as i64 + *dl as i64).max(1) as u32),
+                    LiveSel::Cancel(same) => (if *same { m.pending.unwrap_or(m.last_offeree) } else { pick(*to, NA + 1) }, 0u32),
+                };
+                touched_acct = Some(to_i);
+                (Call { func: w.fname("transfer_admin_role"), args: vec![addr(to_i).into_val(e), until.into_val(e)], signers: vec![addr(s)] }, auth, "transfer")
+            }
+            Op::AcceptAdmin { by, auth } => {
+                let s = resolve(&m, by, None);
+                (Call { func: w.fname("accept_admin_transfer"), args: vec![], signers: vec![addr(s)] }, auth, "accept")
+            }
+            Op::RenounceAdmin { by, auth } => {
+                let s = resolve(&m, by, None);
+                (Call { func: w.fname("renounce_admin"), args: vec![], signers: vec![addr(s)] }, auth, "renounce_admin")
+            }
+            Op::Probe { kind, role, caller, other, auth, .. } => {
+                let g = guard(case.target, *kind);
+                let steer = if nr == 0 { None } else { Some(g.roles.as_ref().map(|v| v[*role as usize % v.len()]).unwrap_or(ridx(role))) };
+                let c = resolve(&m, caller, steer);
+                touched_acct = Some(c);
+                let args: Vec<Val> = match (case.target, g.func) {
+                    (_, "p_admin") | (_, "admin_restricted_function") | (_, "increment") => vec![],
+                    (Target::Nft, "mint") => {
+                        let to = pick(*other, NA + 1);
+                        vec![addr(to).into_val(e), m.next_token.into_val(e), addr(c).into_val(e)]
+                    }
+                    (Target::Nft, "burn") => {
+                        // a token of the caller when there is one, else a token of somebody else / none
+                        let own: Vec<u32> = m.tokens.iter().filter(|(_, o)| **o == c).map(|(t, _)| *t).collect();
+                        let tok = if !own.is_empty() { own[pick(*other, own.len())] } else { m.tokens.keys().next().copied().unwrap_or(9999) };
+                        vec![addr(c).into_val(e), tok.into_val(e)]
+                    }
+                    (Target::Nft, "burn_from") => {
+                        let all: Vec<(u32, usize)> = m.tokens.iter().map(|(t, o)| (*t, *o)).collect();
+                        let (tok, owner) = if all.is_empty() { (9999, c) } else { all[pick(*other, all.len())] };
+                        vec![addr(c).into_val(e), addr(owner).into_val(e), tok.into_val(e)]
+                    }
+                    _ => vec![addr(c).into_val(e)],
+                };
+                (Call { func: g.func, args, signers: vec![addr(c)] }, auth, "probe")
+            }
+        };
+
+        let mut cl = cl;
+        if let Op::Grant { also: Some(x), .. } | Op::Revoke { also: Some(x), .. } | Op::Probe { also: Some(x), .. } = op {
+            let extra = addr(resolve(&m, x, touched_role));
+            if !cl.signers.contains(&extra) {
+                cl.signers.push(extra);
+                ctx.class("second_exact_signer");
+            }
+        }
+        let (res, attached) = exec(e, &w.c, &cl, mode, &w.accts);
+        let authd = |i: usize| attached.contains(&w.accts[i]);
+        let admin_authd = m.admin.map(|a| authd(a)).unwrap_or(false);
+
+        // model prediction
+        let (pred, effect): (Pred, Effect) = match op {
+            Op::Grant { .. } | Op::Revoke { .. } => {
+                let r = touched_role.unwrap();
+                let a = touched_acct.unwrap();
+                let c = w.idx(&cl.signers[0]).unwrap();
+                let standing = m.admin == Some(c) || m.role_admin[r].map(|ar| m.members[ar].contains(&c)).unwrap_or(false);
+                let ok_auth = authd(c) && standing;
+                if matches!(op, Op::Grant { .. }) {
+                    (Pred { may: ok_auth, must: Some(ok_auth) }, Effect::Grant(r, a))
+                } else {
+                    let held = m.members[r].contains(&a);
+                    (Pred { may: ok_auth && held, must: Some(ok_auth && held) }, Effect::Remove(r, a))
+                }
+            }
+            Op::Renounce { .. } => {
+                let r = touched_role.unwrap();
+                let c = touched_acct.unwrap();
+                let ok = authd(c) && m.members[r].contains(&c);
+                (Pred { may: ok, must: Some(ok) }, Effect::Remove(r, c))
+            }
+            Op::SetRoleAdmin { admin_role, .. } => (Pred { may: admin_authd, must: Some(admin_authd) }, Effect::SetRoleAdmin(touched_role.unwrap(), ridx(admin_role))),
+            Op::TransferAdmin { live, .. } => {
+                // the lifetime rules of the offer are C07's subject: safety only
+                let to = touched_acct.unwrap();
+                let eff = match live {
+                    LiveSel::Cancel(_) => Effect::Offer(None),
+                    LiveSel::Rel(_) => Effect::Offer(Some(to)),
+                };
+                (Pred { may: admin_authd, must: if admin_authd { None } else { Some(false) } }, eff)
+            }
+            Op::AcceptAdmin { .. } => {
+                let ok = m.admin.is_some() && m.pending.map(|p| authd(p)).unwrap_or(false);
+                (Pred { may: ok, must: if ok { None } else { Some(false) } }, Effect::Accept)
+            }
+            Op::RenounceAdmin { .. } => {
+                // refused while an offer is pending (C07); without any offer ever made the docs fix success
+                let must = if !admin_authd { Some(false) } else if m.pending.is_none() { Some(true) } else { None };
+                (Pred { may: admin_authd, must }, Effect::RenounceAdmin)
+            }
+            Op::Probe { kind, .. } => {
+                let g = guard(case.target, *kind);
+                let c = touched_acct.unwrap();
+                match &g.roles {
+                    None => (Pred { may: admin_authd, must: Some(admin_authd) }, Effect::Probe(None)),
+                    Some(rs) => {
+                        let member = rs.iter().any(|r| m.members[*r].contains(&c));
+                        let gate = member && (!g.needs_auth || authd(c));
+                        match g.func {
+                            "mint" => {
+                                let to = w.idx(&Address::try_from_val(e, &cl.args[0]).unwrap()).unwrap();
+                                (Pred { may: gate, must: Some(gate) }, Effect::Probe(Some((m.next_token, Some(to)))))
+                            }
+                            "burn" => {
+                                let tok = u32::try_from_val(e, &cl.args[1]).unwrap();
+                                let owns = m.tokens.get(&tok) == Some(&c);
+                                (Pred { may: gate && owns, must: Some(gate && owns) }, Effect::Probe(Some((tok, None))))
+                            }
+                            "burn_from" => {
+                                let tok = u32::try_from_val(e, &cl.args[2]).unwrap();
+                                let owner = w.idx(&Address::try_from_val(e, &cl.args[1]).unwrap()).unwrap();
+                                let exists = m.tokens.get(&tok) == Some(&owner);
+                                // approvals are not modelled: only the owner itself is known to be approved
+                                let must = if !(gate && exists) { Some(false) } else if owner == c { Some(true) } else { Some(false) };
+                                (Pred { may: gate && exists, must }, Effect::Probe(Some((tok, None))))
+                            }
+                            _ => (Pred { may: gate, must: Some(gate) }, Effect::Probe(None)),
+                        }
+                    }
+                }
+            }
+            Op::Advance { .. } => unreachable!(),
+        };
+        if case.target == Target::Nft && cl.func == "mint" {
+            m.next_token += 1; // every attempt uses a fresh id
+        }
+
+        let ok = res.is_ok();
+        ctx.op(ok);
+        let what = format!("step {step} {}({:?}) signers-attached={:?}", cl.func, op, attached.iter().map(|a| w.idx(a)).collect::<Vec<_>>());
+        let fname = match kind_name {
+            "probe" => format!("probe:{}", cl.func),
+            "transfer" => "transfer_admin_role".to_string(),
+            "accept" => "accept_admin_transfer".to_string(),
+            x => x.to_string(),
+        };
+        if ok && !pred.may {
+            let clause = if m.renounced && matches!(op, Op::SetRoleAdmin { .. } | Op::TransferAdmin { .. } | Op::AcceptAdmin { .. } | Op::RenounceAdmin { .. })
+                || (m.renounced && matches!(op, Op::Probe{kind, ..} if guard(case.target, *kind).roles.is_none()))
+            {
+                "succeeded-after-renounce"
+            } else {
+                "unauthorized-succeeded"
+            };
+            bail!(format!("C06/{fname}/{clause}"), "{what}: succeeded although the model forbids it (admin {:?}, pending {:?}, members {:?}, role_admin {:?})", m.admin, m.pending, m.members, m.role_admin);
+        }
+        if let Some(must) = pred.must {
+            if must && !ok {
+                bail!(format!("C06/{fname}/authorized-refused"), "{what}: refused ({:?}) although the documented conditions hold (admin {:?}, members {:?}, role_admin {:?})", res, m.admin, m.members, m.role_admin);
+            }
+            if !must && ok {
+                bail!(format!("C06/{fname}/unexpected-success"), "{what}: succeeded although the documented preconditions do not hold");
+            }
+        }
+        if in_setup {
+            ensure!(ok, "C06/setup/failed", "{what}: set-up call by the admin failed: {:?}", res);
+        }
+        if !ok {
+            rejected_privileged = true;
+        }
+
+        // apply the effect
+        let d_before = d.clone();
+        if ok {
+            match effect {
+                Effect::Grant(r, a) => {
+                    let c = w.idx(&cl.signers[0]).unwrap();
+                    if m.members[r].insert(a) && m.admin != Some(c) {
+                        role_admin_grant = true;
+                        ctx.class("grant_by_role_admin");
+                    }
+                }
+                Effect::Remove(r, a) => {
+                    if let Some(i) = d_before.has[r][a] {
+                        if i + 1 != d_before.count[r] {
+                            swap_pop = true;
+                            ctx.class("remove_non_last_index");
+                        }
+                    }
+                    m.members[r].remove(&a);
+                    if m.members[r].is_empty() {
+                        ctx.class("role_emptied");
+                    }
+                    let c = w.idx(&cl.signers[0]).unwrap();
+                    if matches!(op, Op::Revoke { .. }) && m.admin != Some(c) {
+                        ctx.class("revoke_by_role_admin");
+                    }
+                }
+                Effect::SetRoleAdmin(r, ar) => {
+                    m.role_admin[r] = Some(ar);
+                    if ar == r {
+                        ctx.class("self_admin_role");
+                    } else if m.role_admin[ar] == Some(r) {
+                        ctx.class("role_admin_cycle");
+                    }
+                }
+                Effect::Offer(p) => {
+                    m.pending = p;
+                    if let Some(p) = p {
+                        m.last_offeree = p;
+                    }
+                }
+                Effect::Accept => {
+                    m.admin = m.pending;
+                    m.last_admin = m.admin.unwrap_or(m.last_admin);
+                    m.pending = None;
+                    ctx.class("admin_changed_hands");
+                }
+                Effect::RenounceAdmin => {
+                    m.admin = None;
+                    m.pending = None;
+                    m.renounced = true;
+                    ctx.class("admin_renounced");
+                }
+                Effect::Probe(tok) => {
+                    ctx.class("probe_passed");
+                    match case.target {
+                        Target::Nft => match tok {
+                            Some((id, Some(to))) => {
+                                m.tokens.insert(id, to);
+                            }
+                            Some((id, None)) => {
+                                m.tokens.remove(&id);
+                            }
+                            None => {}
+                        },
+                        _ => {
+                            m.counter += 1;
+                            // the privileged effect's own report
+                            let got = res.as_ref().ok().and_then(|v| u32::try_from_val(e, v).ok().or_else(|| i32::try_from_val(e, v).ok().map(|x| x as u32)));
+                            ensure!(got == Some(m.counter), "C06/probe/return-mismatch", "{what}: returned {:?}, expected counter {}", got, m.counter);
+                        }
+                    }
+                }
+            }
+        } else if matches!(op, Op::Probe { .. }) {
+            ctx.class("probe_refused");
+            if m.renounced {
+                ctx.class("probe_refused_after_renounce");
+            }
+        }
+        d = dump(&w)?;
+        if !ok {
+            ensure!(d == d_before, "C06/failed-call/state-changed", "{what}: failed but the observable state changed: {:?} -> {:?}", d_before, d);
+        }
+        check_state(&w, &m, &d, &what)?;
+        let tr: Vec<usize> = touched_role.into_iter().collect();
+        let ta: Vec<usize> = touched_acct.into_iter().collect();
+        check_api(&w, &d, &tr, &ta, false)?;
+        match mode {
+            AuthMode::Exact => ctx.class("auth_exact"),
+            AuthMode::Surplus(_) => ctx.class("auth_surplus"),
+            _ => ctx.class("auth_defective"),
+        }
+    }
+    // final sweep through the public entry points
+    let all_r: Vec<usize> = (0..nr).collect();
+    let all_a: Vec<usize> = (0..=NA).collect();
+    check_api(&w, &d, &all_r, &all_a, true)?;
+    if m.renounced {
+        ctx.class("history_with_renounce");
+    }
+    let nontrivial = if case.target == Target::Ownable { rejected_privileged && ctx.seen("probe_passed") > 0 } else { swap_pop && role_admin_grant && rejected_privileged };
+    if nontrivial {
+        ctx.nontrivial = true;
+        ctx.class("nontrivial");
+    }
+    Ok(())
+}
+
+// ------------------------------------------------------------------ MAX_ROLES boundary (deterministic)
+
+fn max_roles_slabs(_t: Tier) -> u64 {
+    1
+}
+
+fn run_max_roles(_tier: Tier, _slab: u64, ctx: &mut Ctx, out: &mut FixedOut) -> R {
+    let w = World::setup(Target::Acl, 100, envx::BIG_TTL);
+    let e = &w.e;
+    let admin = w.accts[0].clone();
+    let limit = ac::MAX_ROLES;
+    out.evaluations = 1;
+    let grant = |role: &str, acct: usize| -> Result<Val, String> {
+        let cl = Call {
+            func: "grant_role",
+            args: vec![w.accts[acct].clone().into_val(e), Symbol::new(e, role).into_val(e), admin.clone().into_val(e)],
+            signers: vec![admin.clone()],
+        };
+        exec(e, &w.c, &cl, &AuthMode::Exact, &w.accts).0
+    };
+    let existing = || -> Result<Vec<Symbol>, Violation> {
+        let v = call_t::<SVec<Symbol>>(e, &w.c, "get_existing_roles", args![e]).map_err(|x| violation("C06/max_roles/get_existing_roles-failed", x))?;
+        Ok(v.iter().collect())
+    };
+    for i in 0..limit {
+        let name = format!("role_{i}");
+        let r = grant(&name, 1);
+        out.failing = Some(json!({"granting": name}));
+        ensure!(r.is_ok(), "C06/max_roles/within-limit-refused", "role number {} (of documented maximum {limit}) refused: {:?}", i + 1, r);
+        ctx.op(true);
+    }
+    let ex = existing()?;
+    let set: BTreeSet<String> = ex.iter().map(|s| format!("{s:?}")).collect();
+    ensure!(ex.len() as u32 == limit && set.len() as u32 == limit, "C06/max_roles/existing-roles-size", "{} roles listed ({} distinct) after {limit} grants", ex.len(), set.len());
+    let r = grant("one_too_many", 1);
+    ctx.op(r.is_ok());
+    ensure!(r.is_err(), "C06/max_roles/limit-not-enforced", "role number {} was created", limit + 1);
+    // at the limit an existing role can still get members
+    let r = grant("role_7", 2);
+    ensure!(r.is_ok(), "C06/max_roles/member-of-existing-role-refused", "{:?}", r);
+    // emptying a role frees its slot
+    let cl = Call { func: "renounce_role", args: vec![Symbol::new(e, "role_17").into_val(e), w.accts[1].clone().into_val(e)], signers: vec![w.accts[1].clone()] };
+    let r = exec(e, &w.c, &cl, &AuthMode::Exact, &w.accts).0;
+    ensure!(r.is_ok(), "C06/max_roles/renounce-failed", "{:?}", r);
+    let ex = existing()?;
+    ensure!(ex.len() as u32 == limit - 1 && !ex.contains(&Symbol::new(e, "role_17")), "C06/existing_roles/mismatch", "emptied role still listed ({} roles)", ex.len());
+    let r = grant("one_too_many", 1);
+    ensure!(r.is_ok(), "C06/max_roles/freed-slot-refused", "{:?}", r);
+    let ex = existing()?;
+    let set: BTreeSet<String> = ex.iter().map(|s| format!("{s:?}")).collect();
+    ensure!(ex.len() as u32 == limit && set.len() as u32 == limit, "C06/max_roles/existing-roles-size", "{} roles listed after refill", ex.len());
+    ctx.class("max_roles_boundary");
+    ctx.nontrivial = true;
+    out.nontrivial.push(hash_str("max-roles"));
+    Ok(())
+}
+
+// ------------------------------------------------------------------ property
+
+macro_rules! target_sub {
+    ($name:expr, $t:expr, $q:expr, $th:expr) => {{
+        fn strat(tier: Tier) -> BoxedStrategy<Case> {
+            strategy_for($t, tier)
+        }
+        gen_sub::<Case>($name, $q, $th, strat, run)
+    }};
+}
 
 pub fn property() -> Property {
-    Property { id: "C06", rule: "", subs: vec![], floors: vec![], assumptions: vec![] }
+    Property {
+        id: "C06",
+        rule: "case = (target in {harness Acl, example nft-access-control, example ownable}, start ledger, initial role-admin wiring and memberships applied through the \
+               public entry points, history of <=40 (thorough 80) ops grant/revoke/renounce_role/set_role_admin/transfer_admin/accept/renounce_admin/guarded probe/advance over 4 roles and \
+               5+1 accounts, caller by model-relative selector, auth mode Exact/Drop/Swap/Tamper/Surplus); non-trivial = >=1 successful revoke/renounce of a non-last index, >=1 successful \
+               grant by a role-admin holder who is not the admin and >=1 rejected privileged call (ownable: >=1 passed and >=1 rejected owner-guarded call); distinct = distinct serialised case",
+        subs: vec![
+            target_sub!("acl", Target::Acl, 1200, 20000),
+            target_sub!("nft-access-control", Target::Nft, 900, 14000),
+            target_sub!("ownable", Target::Ownable, 400, 6000),
+            Box::new(Fixed { name: "max-roles", slabs: max_roles_slabs, run: run_max_roles }),
+        ],
+        floors: vec![
+            ("nontrivial", 55, 550),
+            ("remove_non_last_index", 120, 1200),
+            ("grant_by_role_admin", 60, 600),
+            ("revoke_by_role_admin", 50, 500),
+            ("role_admin_cycle", 40, 400),
+            ("self_admin_role", 140, 1400),
+            ("role_emptied", 50, 500),
+            ("admin_changed_hands", 15, 150),
+            ("probe_passed", 400, 4000),
+            ("probe_refused_after_renounce", 200, 2000),
+            ("auth_defective", 2000, 20000),
+            ("max_roles_boundary", 1, 1),
+        ],
+        assumptions: vec![
+            "Soroban native test host (storage, rollback of failed invocations, authorization matching) is trusted",
+            "an address authorizes a call iff an authorization entry of that address for exactly this invocation is attached (accept-all account contracts)",
+            "#[has_role] / #[has_any_role] check membership without require_auth, as documented; lifetime rules of admin/ownership offers are C07's subject (safety only here)",
+        ],
+    }
 }
